@@ -64,15 +64,10 @@ def run(ctx, prop=PROP):
     failed = [r for r in real if not r.discharged]
     for r in failed:
         method = r.name.split("/")[0].rsplit(".", 1)[-1]
-        witness = [f for f in mon.failures if (".%s/" % method) in f.obligation or (method == "set_if" and "_update/" in f.obligation)]
-        if witness:
-            f = witness[0]
-            ctx.violation(core.Violation(prop, r.name, "obligation generated from the current source is not discharged (%s); the bounded run of the real "
-                                         "code fails %s: %s" % (r.verdict, f.obligation, f.what), input=f.input, cls=f.cls))
-        else:
-            ctx.violation(core.Violation(prop, r.name, "obligation generated from the current source is not discharged (%s by %s); the bounded run found no failing input"
-                                         % (r.verdict, r.backend), input=None, cls={"method": method},
-                                         solver={"verdict": r.verdict, "backend": r.backend, "detail": r.detail, "model": r.model}, no_input=True))
+        # (when the bounded run of the real code found a failing input in this run, core adopts it for this violation)
+        ctx.violation(core.Violation(prop, r.name, "obligation generated from the current source is not discharged (%s by %s)" % (r.verdict, r.backend),
+                                     input=None, cls={"method": method},
+                                     solver={"verdict": r.verdict, "backend": r.backend, "detail": r.detail, "model": r.model}, no_input=True))
     eqres = None
     if prop == "C15":
         import ast as _ast
